@@ -83,3 +83,14 @@ class _CompoundLocation:
             if self_part != other_part:
                 return False
         return True
+
+
+class SeqFeature:
+    """Bio.SeqFeature.SeqFeature as a plain holder of location, type, id and qualifiers (the attributes the
+    verified functions read and write; nothing else of the class is modelled)."""
+
+    def __init__(self, location=None, type="", id="<unknown id>", qualifiers=None):  # pylint: disable=redefined-builtin
+        self.location = location
+        self.type = type
+        self.id = id
+        self.qualifiers = {} if qualifiers is None else qualifiers
